@@ -34,10 +34,12 @@ struct W {
     start_us: Option<u64>,
     /// carousel (delay ms) and the packet index after which the object is removed
     carousel: Option<(u64, u64)>,
+    /// paced transfer: target acquisition duration (ms)
+    target_ms: Option<u64>,
 }
 
 fn w(prio: u32, blocks: u32, transfers: u32, after: Option<u64>) -> W {
-    W { prio, symbols: blocks * 3, b: 3, transfers, after, start_us: None, carousel: None }
+    W { prio, symbols: blocks * 3, b: 3, transfers, after, start_us: None, carousel: None, target_ms: None }
 }
 
 /// No pacing here. Without start times and carousel every published, unfinished object is ready.
@@ -59,6 +61,7 @@ fn workload(queues: Vec<(u32, u32)>, interleave: u8, full_fdt: bool, objs: Vec<W
         o.prio = x.prio;
         o.max_transfer_count = x.transfers;
         o.start_ms = x.start_us.map(|u| T0_MS + u / 1000);
+        o.target = x.target_ms.map(TargetSpec::DurationMs);
         if let Some((d, k)) = x.carousel {
             o.carousel = Some(CarouselSpec::DelayMs(d));
             removals.push((i, k));
@@ -138,6 +141,7 @@ pub fn gen(idx: u64, rng: &mut Rng, _tier: Tier) -> Scn {
             after: if rng.chance(0.35) { Some(rng.range(1, 40)) } else { None },
             start_us: if timed && rng.chance(0.4) { Some(rng.range(0, 12) * 1000 + 500) } else { None },
             carousel,
+            target_ms: if timed && rng.chance(0.2) { Some(*rng.pick(&[3u64, 10, 40])) } else { None },
         });
     }
     if objs.iter().all(|o| o.after.is_some()) {
@@ -192,6 +196,24 @@ pub fn oracle(scn: &SenderScn, ctx: &Ctx, trace: &SenderTrace) {
         let removed = removal_seq(trace, i).unwrap_or(u64::MAX);
         let mine: Vec<&Transfer> = tr.list.iter().filter(|t| t.obj == i).collect();
         let last_pkt_seq = |t: &Transfer| t.pkts.last().map(|p| trace.pkts[*p].seq);
+        if o.target.is_some() {
+            // paced: definitely ready only until its first packet (the following ones wait for their tick)
+            // (and only once it holds a multiplex slot: from the start of its transfer)
+            if let Some(t0) = mine.first() {
+                let until = t0.pkts.first().map(|p| trace.pkts[*p].seq).unwrap_or(u64::MAX).min(removed);
+                ready.push(Ready { obj: i, prio: o.prio, from: t0.start_seq, until });
+            }
+            continue;
+        }
+        if scn.objects.iter().any(|x| x.prio == o.prio && x.target.is_some()) {
+            // a paced object of this queue may hold a multiplex slot while it waits for its tick: another object
+            // of the queue that waits for a slot is not "ready to send"; it is once it is in transmission
+            for t in mine.iter() {
+                let until = last_pkt_seq(t).unwrap_or(t.start_seq).min(removed);
+                ready.push(Ready { obj: i, prio: o.prio, from: t.start_seq, until });
+            }
+            continue;
+        }
         if o.carousel.is_some() {
             // definitely ready: until the last packet of the first transfer, then during each later transfer
             // (between two transfers it waits for its carousel delay)
@@ -300,6 +322,9 @@ pub fn oracle(scn: &SenderScn, ctx: &Ctx, trace: &SenderTrace) {
         for b in tr.list.iter().skip(ia + 1) {
             if scn.objects[a.obj].prio != scn.objects[b.obj].prio || a.obj == b.obj {
                 continue;
+            }
+            if scn.objects[a.obj].target.is_some() || scn.objects[b.obj].target.is_some() {
+                continue; // a paced object waits for its ticks
             }
             let (fa, la) = match (a.pkts.first(), a.pkts.last()) {
                 (Some(f), Some(l)) => (trace.pkts[*f].seq, trace.pkts[*l].seq),
